@@ -1,6 +1,6 @@
 #!/bin/bash
 # all seeds against their own property's quick check; C06 seeds one at a time (they regenerate Lean sources)
 cd /verif
-ls seeded | grep -v C06 | grep -v '\.txt$' | sed 's|^|seeded/|' | SEEDTEST_SNAPSHOT=1 xargs ./seedtest.py --jobs 5 > .work/seed_all.jsonl 2> .work/seed_all.err
+ls seeded | grep -v C06 | grep -v '\.txt$' | sed 's|^|seeded/|' | SEEDTEST_SNAPSHOT=1 xargs ./seedtest.py --jobs 8 > .work/seed_all.jsonl 2> .work/seed_all.err
 SEEDTEST_SNAPSHOT=1 ./seedtest.py --jobs 1 seeded/C06-* >> .work/seed_all.jsonl 2>> .work/seed_all.err
 echo done > .work/seed_all.DONE
